@@ -335,6 +335,10 @@ def l1_scenarios(rng, quick):
             out.append(coverage_scenario("png", "rgba", classes, k % 2 == 0, len(out)))
     out += env_scenarios(quick, len(out))
     out += launch_scenarios(quick, len(out))
+    # separately launched MultiTanProcessor.tile() jobs into one pyramid: serial + workers, workers + serial, both serial
+    jobs = [("npy", (1, 2)), ("npy", (2, 1)), ("fits", (1, 1))] if quick else [(f, par) for f in ("npy", "fits") for par in ((1, 2), (2, 1), (1, 1), (2, 2), (1, 3))]
+    for fmt, par in jobs:
+        out.append(job_scenario(fmt, par, len(out)))
     return out
 
 
@@ -658,11 +662,239 @@ def _l1_run(sc, d):
             "tiles": tiles, "locks_left": locks_left, "wall": round(time.time() - t0, 2)}
 
 
+# ---- real MultiTanProcessor.tile() jobs, separately launched, into one pyramid -------------------------------------------
+
+MOSAIC = 1024                                  # the jobs' common mosaic: 4 x 4 tiles at level 2
+JOB_REG = {1: {1: [1], 2: [1, 4]}, 2: {1: [2, 4], 2: [2]}, 3: {1: [3, 4], 2: [3]}, 4: {1: [1, 2], 2: [4]}}   # image p -> tile -> region
+
+
+def _job_tile_origin(t):
+    n, x, y = POS_XY[t]
+    return x * T, y * T
+
+
+def _paint(ids_by_tile, regs_by_tile, tile_flip):
+    """A MOSAIC x MOSAIC image (top-down), undefined except for lifted contributions on the modelled tiles."""
+    import numpy as np
+    m = np.full((MOSAIC, MOSAIC), np.nan, dtype=np.float32)
+    for t, c in ids_by_tile.items():
+        x0, y0 = _job_tile_origin(t)
+        tile = lifted("f32", [c if j in regs_by_tile[t] else 0 for j in range(1, NPIX + 1)])
+        m[y0:y0 + T, x0:x0 + T] = tile[::-1] if tile_flip else tile
+    return m
+
+
+def _write_segment(path, m, input_flip):
+    from astropy.io import fits
+    from astropy.wcs import WCS
+    w = WCS(naxis=2)
+    w.wcs.ctype = ["RA---TAN", "DEC--TAN"]
+    w.wcs.crval = [10.0, 20.0]
+    w.wcs.crpix = [MOSAIC / 2 + 0.5, MOSAIC / 2 + 0.5]
+    w.wcs.cdelt = [-0.0005, 0.0005]
+    fits.PrimaryHDU(m[::-1] if input_flip else m, header=w.to_header()).writeto(path, overwrite=True)
+
+
+def _make_job_pio(d, fmt, hooks):
+    """A PyramidIO whose update_image / clean_lockfiles report to the harness (in the job's own processes)."""
+    from contextlib import contextmanager
+    from toasty.pyramid import PyramidIO
+    modelled = {POS_XY[t]: t for t in POS_XY}
+
+    class JobPIO(PyramidIO):
+        @contextmanager
+        def update_image(self, pos, *a, **k):
+            t = modelled.get(tuple(pos))
+            with PyramidIO.update_image(self, pos, *a, **k) as basis:
+                tok = hooks["body_start"](t, basis) if t is not None else None
+                yield basis
+                if t is not None:
+                    hooks["body_end"](t, basis, tok)
+            hooks["completed"]()
+
+        def clean_lockfiles(self, level):
+            hooks["before_clean"]()
+            return PyramidIO.clean_lockfiles(self, level)
+    return JobPIO(d, default_format=fmt)
+
+
+def _tile_job(pio, paths, parallel):
+    from toasty import collection, multi_tan
+    from toasty.builder import Builder
+    proc = multi_tan.MultiTanProcessor(collection.SimpleFitsCollection(paths))
+    proc.compute_global_pixelization(Builder(pio))
+    if proc._tiling._tile_levels != POS_XY[1][0]:
+        raise RuntimeError("the jobs tile level %d, the harness's tiles are at level %d" % (proc._tiling._tile_levels, POS_XY[1][0]))
+    return proc
+
+
+_CAL_CACHE = {}
+
+
+def _calibrate_jobs(fmt, scratch):
+    """One job alone: in which order does an image visit the modelled tiles, how many update_image calls does it make, and how
+    must the input be oriented so that the tile buffers hold the lifted patterns?"""
+    import itertools
+    from toasty.image import get_format_vertical_parity_sign
+    if fmt in _CAL_CACHE:
+        return _CAL_CACHE[fmt]
+    guess = get_format_vertical_parity_sign(fmt) == 1         # only the order of the attempts; the read-back decides
+    for tile_flip, input_flip in itertools.product((guess, not guess), (True, False)):
+        d = os.path.join(scratch, "cal-%d%d" % (tile_flip, input_flip))
+        os.makedirs(d, exist_ok=True)
+        order, calls = [], [0]
+        hooks = {"body_start": lambda t, b: order.append(t), "body_end": lambda t, b, tok: None,
+                 "completed": lambda: calls.__setitem__(0, calls[0] + 1), "before_clean": lambda: None}
+        pio = _make_job_pio(os.path.join(d, "pyr"), fmt, hooks)
+        src = os.path.join(d, "cal.fits")
+        _write_segment(src, _paint({1: 1, 2: 2}, {1: [1], 2: [2, 4]}, tile_flip), input_flip)
+        proc = _tile_job(pio, [src], 1)
+        proc.tile(pio, parallel=1, cli_progress=False)
+        sc = {"fmt": fmt, "mode": "f32"}
+        got = [x["px"] for x in read_final(pio, sc)]
+        if got == [[1, 0, 0, 0], [0, 2, 0, 2]] and sorted(order) == [1, 2]:
+            _CAL_CACHE[fmt] = {"tile_flip": tile_flip, "input_flip": input_flip, "order": order, "calls": calls[0]}
+            return _CAL_CACHE[fmt]
+    raise RuntimeError("cannot place lifted contributions through MultiTanProcessor (last result %s, order %s)" % (got, order))
+
+
+def _l1_job(j, sc, d, sh, cal, paths, evdir):
+    """One separately launched tiling job: MultiTanProcessor.tile() over its own segments, serial or with workers."""
+    import warnings
+    warnings.simplefilter("ignore")
+    ticket, cond, inside, overlap, barrier, entered, completed, jobs_done = sh
+    total = cal["calls"] * len(paths)
+    err = None
+
+    def draw():
+        with ticket.get_lock():
+            ticket.value += 1
+            return ticket.value
+
+    def body_start(t, basis):
+        t0 = draw()
+        with cond:
+            inside[t] += 1
+            mefirst = entered.value == 0
+            if mefirst:
+                entered.value = 1                             # the other job is launched now: while we are inside
+                cond.notify_all()
+            if inside[t] >= 2:
+                overlap.value = 1
+                cond.notify_all()
+            elif mefirst:
+                cond.wait_for(lambda: inside[t] >= 2, 3 * DWELL)
+        return t0, project(basis.asarray(), "f32")
+
+    def body_end(t, basis, tok):
+        t0, px0 = tok
+        px1 = project(basis.asarray(), "f32")
+        with cond:
+            inside[t] -= 1
+        t1 = draw()
+        new = sorted({b for a, b in zip(px0, px1) if a != b and 1 <= b <= RP * RU})
+        p, i = (((new[0] - 1) // RU + 1), ((new[0] - 1) % RU + 1)) if len(new) == 1 else (0, 0)
+        with open(os.path.join(evdir, "%d.ndjson" % os.getpid()), "a") as f:
+            f.write(json.dumps({"ev": "read", "p": p, "i": i, "px": px0, "t": t0}) + "\n")
+            f.write(json.dumps({"ev": "modify", "p": p, "i": i, "px": px1, "t": t1}) + "\n")
+
+    def done_one():
+        with cond:
+            completed[j] += 1
+            if completed[j] == total:
+                jobs_done.value += 1
+                cond.notify_all()
+
+    def before_clean():
+        # the LAST sweep of a job (made once all its updates are complete) is held back until every job is quiescent: what a
+        # finished job's sweep does to jobs still running is outside the property (DESIGN 9); earlier sweeps run unhindered
+        with cond:
+            if completed[j] >= total:
+                cond.wait_for(lambda: jobs_done.value >= sc["njobs"], 60)
+    try:
+        pio = _make_job_pio(d, sc["fmt"], {"body_start": body_start, "body_end": body_end, "completed": done_one, "before_clean": before_clean})
+        proc = _tile_job(pio, paths, sc["parallel"][j - 1])
+        barrier.wait(90)
+        if j != 1:
+            with cond:                                        # job start placed while the first job is inside a critical section
+                cond.wait_for(lambda: entered.value == 1, 30)
+        proc.tile(pio, parallel=sc["parallel"][j - 1], cli_progress=False)
+    except BaseException as e:  # noqa
+        err = "%s: %s" % (type(e).__name__, str(e)[:200])
+    with cond:
+        if completed[j] < total:                              # a failed job must not leave the others waiting
+            completed[j] = total
+            jobs_done.value += 1
+        cond.notify_all()
+    with open(os.path.join(evdir, "job-%d.json" % j), "w") as f:
+        json.dump({"error": err}, f)
+    os._exit(0)
+
+
+def job_scenario(fmt, parallel, idx):
+    """Two separately launched MultiTanProcessor.tile() jobs (two segments each, every segment overlapping both modelled
+    tiles) into one pyramid; parallel[j] = 1: serial route, > 1: worker processes."""
+    return {"name": "tiling-jobs/%s/%s" % ("+".join("serial" if n == 1 else "%dworkers" % n for n in parallel), fmt), "fmt": fmt, "mode": "f32",
+            "jobs": True, "njobs": len(parallel), "parallel": list(parallel), "idx": idx, "style": None, "entry": "MultiTanProcessor.tile",
+            "cfg": mkcfg([2] * 4, [[1, 2]] * 4, [[JOB_REG[p][1], JOB_REG[p][2]] for p in range(1, 5)]), "deadline": 90}
+
+
+def _l1_run_jobs(sc, d):
+    import multiprocessing as mp
+    ctx = mp.get_context("fork")
+    os.makedirs(d, exist_ok=True)
+    t0 = time.time()
+    cal = _calibrate_jobs(sc["fmt"], d)
+    order = cal["order"]                                      # the modelled tiles in the order a segment visits them
+    cfg = mkcfg([2] * 4, [order] * 4, [[JOB_REG[p][order[0]], JOB_REG[p][order[1]]] for p in range(1, 5)])
+    pyr, evdir = os.path.join(d, "pyr"), os.path.join(d, "ev")
+    os.makedirs(evdir, exist_ok=True)
+    paths = {}
+    for p in range(1, 5):
+        path = os.path.join(d, "segment-%d.fits" % p)
+        _write_segment(path, _paint({order[0]: rid(p, 1), order[1]: rid(p, 2)}, JOB_REG[p], cal["tile_flip"]), cal["input_flip"])
+        paths.setdefault((p - 1) // 2 + 1, []).append(path)
+    njobs = sc["njobs"]
+    sh = (ctx.Value("i", 0), ctx.Condition(), ctx.Array("i", NPOS + 1, lock=False), ctx.Value("i", 0, lock=False), ctx.Barrier(njobs),
+          ctx.Value("i", 0, lock=False), ctx.Array("i", njobs + 1, lock=False), ctx.Value("i", 0, lock=False))
+    ws = []
+    for j in range(1, njobs + 1):
+        w = ctx.Process(target=_l1_job, args=(j, sc, pyr, sh, cal, paths[j], evdir))
+        w.start()
+        ws.append(w)
+    stuck, errors = [], {}
+    deadline = time.time() + sc.get("deadline", 90)
+    for j, w in enumerate(ws, 1):
+        w.join(max(0.1, deadline - time.time()))
+        if w.is_alive():
+            stuck.append("job %d" % j)
+            os.system("pkill -KILL -P %d >/dev/null 2>&1" % w.pid)
+            w.kill()
+            w.join()
+        rep = os.path.join(evdir, "job-%d.json" % j)
+        if os.path.exists(rep):
+            e = json.load(open(rep))["error"]
+            if e:
+                errors["job %d" % j] = e
+        elif ("job %d" % j) not in stuck:
+            errors["job %d" % j] = "job exited without a report"
+    events = []
+    for fn in os.listdir(evdir):
+        if fn.endswith(".ndjson"):
+            events += [json.loads(ln) for ln in open(os.path.join(evdir, fn)) if ln.strip()]
+    events.sort(key=lambda e: e["t"])
+    from toasty.pyramid import PyramidIO
+    pio = PyramidIO(pyr, default_format=sc["fmt"])
+    locks_left = sorted(fn for _r, _d, fns in os.walk(pyr) for fn in fns if fn.endswith(".lock"))
+    return {"sc": sc["name"], "idx": sc["idx"], "events": events, "errors": errors, "stuck": stuck, "overlap": bool(sh[3].value),
+            "tiles": read_final(pio, sc), "locks_left": locks_left, "wall": round(time.time() - t0, 2), "cfg": cfg, "calibration": cal}
+
+
 def _l1_manager(scs, base, out):
     res = []
     for sc in scs:
         try:
-            res.append(_l1_run(sc, os.path.join(base, "s%d" % sc["idx"])))
+            res.append((_l1_run_jobs if sc.get("jobs") else _l1_run)(sc, os.path.join(base, "s%d" % sc["idx"])))
         except BaseException as e:  # noqa
             res.append({"sc": sc["name"], "idx": sc["idx"], "machinery": "%s: %s" % (type(e).__name__, e)})
     with open(out, "w") as f:
@@ -1278,7 +1510,7 @@ def run(ctx):
             "MCTileLockNeg", extra={"MCTileLockNeg.tla": mc_module("MCTileLockNeg", neg)}, cfg_text=MC_CFG % ("Spec", 3, 2, "INVARIANT " + inv_name),
             workers=1, timeout=600, expect_violation=True, count=False)))
     sims = sim_configs()
-    nsim = 40 if quick else 2000
+    nsim = 30 if quick else 2000
     bg.start("sim", lambda: ctx.tlc("MCTileLockSim", extra={"MCTileLockSim.tla": mc_module("MCTileLockSim", [s["cfg"] for s in sims], [EMIT])},
                                     cfg_text=MC_CFG % ("Spec", RP, RU, "INVARIANT Emit\nINVARIANT Mutex\nINVARIANT NoLostUpdate"),
                                     simulate=nsim, depth=400, workers=1, timeout=3000, count=False))
@@ -1394,7 +1626,7 @@ def run(ctx):
                 ctx.count(2)
             ncov += cruns
         ctx.note("dfs_toast_sampler_coverage_pairs", {"pairs": len(pairs), "schedules": ncov})
-        for k in range(9 if quick else 200):
+        for k in range(6 if quick else 200):
             fmt, mode = [("npy", "f32"), ("fits", "f32"), ("png", "rgba")][k % 3]
             sc = toast_scenario(fmt, mode, 3, k)
             sc["name"] = "rand-" + sc["name"]
@@ -1417,7 +1649,7 @@ def run(ctx):
         ctx.note("stall_holder_schedules", {"runs": nstall, "waiter_polls": 40, "virtual_seconds_per_failed_poll": ">= 1"})
         # 2b random: bigger instances
         rsc = [dict(s, name="rand-" + s["name"]) for s in sims]
-        for k in range(16 if quick else 600):
+        for k in range(12 if quick else 600):
             sc = rsc[k % len(rsc)]
             r2 = __import__("random").Random(ctx.seed * 1000 + k)
             rec, _ = explore_run(sc, ctx.mkdtemp("rnd"), lambda H, allowed, n, r2=r2: r2.randrange(len(allowed)))
@@ -1490,6 +1722,8 @@ def run(ctx):
     ctx.exhaustive = True
 
     for sc, rec in zip(scs, l1):
+        if rec.get("cfg"):
+            sc["cfg"] = rec["cfg"]                            # tiling jobs: the visiting order is found by calibration
         traces.append(("real processes", sc, rec, L1_HIDDEN + (["read", "modify"] if sc.get("caller") else [])))
         ctx.count(sum(sc["cfg"]["nupd"]))
     if foreign:
